@@ -1,0 +1,16 @@
+//go:build verif
+
+package meta
+
+// Facade used by the verification harness (/verif), property C05: the rule by which ts-meta
+// picks the new master partition of a replica group whose master failed.
+// Nothing here is compiled without the `verif` build tag.
+
+import (
+	meta2 "github.com/openGemini/openGemini/lib/util/lifted/influx/meta"
+)
+
+// VerifElectRgMaster is electRgMaster.
+func VerifElectRgMaster(rg *meta2.ReplicaGroup, ptInfo meta2.DBPtInfos, db string) (uint32, []meta2.Peer, bool) {
+	return electRgMaster(rg, ptInfo, db)
+}
